@@ -108,7 +108,7 @@ class String:
             '(?P<name>[a-zA-Z0-9_/.-]+)'              # tag name
             '('
             '[\000- ]+'                             # space after tag name
-            '(?P<args>([^\\)"]+("[^"]*")?)*)'         # arguments
+            '(?P<args>([^\\)"]+("[^"]*"[^\\)"]+)*("[^"]*")?)?)'  # arguments
             ')?'
             '\\)(?P<fmt>[0-9]*[.]?[0-9]*[a-z]|[]![])',  # end
             re.I)
